@@ -135,7 +135,7 @@ def build(config, tier):
         if not clauses:
             continue
         B = 12
-        quick = simd or t in ("f32", "f64")
+        quick = True  # the whole family costs < 3 CPU-minutes (lib/costs.json)
         for bi in range(0, len(clauses), B):
             chunk = clauses[bi:bi + B]
             name = "c14_%s_%s_%d" % (config, N.lower(), bi // B)
@@ -166,7 +166,7 @@ def run(s):
     s.assumptions += [
         "Rust `as` / From / TryFrom on primitives are the specification vocabulary (the same primitive is applied to the same lane on the spec side)",
         "clauses asserted at the call site (bundled call-site obligations); conversions to/from arrays and scalar tuples are C17; masks to arrays are C15",
-        "quick tier: float-source types and the SIMD types; thorough: all 40 vector types",
+        "quick and thorough tier: all 40 vector types",
     ]
     return s.finish(level_note="every as_*/From/TryFrom/extend/truncate between vector types found in the current source, lane by lane, full domain",
                     trusted_base=["Kani 0.68 / CBMC 6.11 / CaDiCaL"], extra_cov={"uncovered_impls": unc},
